@@ -1,7 +1,7 @@
 (* C10 — metadata collections behave as an insertion-ordered map with a one-way freeze.
    The model (Md.v) is the list algorithms of metadata.c; these are the laws of an insertion-ordered
    map that they satisfy.  Statements only; proofs in MdFacts.v. *)
-From Sbdf Require Import Imp ImpCall Gen.Prog ImpFactsFrame ImpFactsHeap ImpFactsCells ImpFactsMd.
+From Sbdf Require Import Imp ImpCall Gen.Prog ImpBase ImpFactsCells ImpFactsMd.
 From Coq Require Import List.
 From Sbdf Require Import Md Tm MdFacts VaFacts.
 
